@@ -20,6 +20,7 @@ import (
 
 	"github.com/sirupsen/logrus"
 
+	"github.com/projectcalico/calico/felix/bpf/state"
 	"github.com/projectcalico/calico/felix/proto"
 	"github.com/projectcalico/calico/zzverif/ebpf"
 	"github.com/projectcalico/calico/zzverif/refpol"
@@ -702,7 +703,7 @@ func TestVerif_C11(t *testing.T) {
 		}
 		c.Rule("A: every rule shape (all match features of the builder, ~75 per IP version) x action {allow,deny,pass,log} x section {workload tier, pre-DNAT, apply-on-forward, normal host, host profile, workload profile, XDP} x ~75 boundary packets (one dimension varied at a time: addresses at CIDR edges, ports at range edges, protocols, ICMP type/code, to/from-host flags, pre!=post NAT); " +
 			"B1: every tier list of <=2 tiers x <=2 rules (policy split variants, staged=empty policy) from a 9-shape x 4-action domain x end action {deny,pass,unset} per section; B2: cross product of per-section menus over all six sections x ForHostInterface x SuppressNormalHostPolicy; " +
-			"C: every split position (per-program jump budget 1..N) for multi-rule / multi-CIDR / multi-port configurations, trampolines with a small stride; D: option matrix (flow logs, policy debug, cb[] jumps, IPv6). Non-trivial = distinct (configuration, options).")
+			"C: every split position (per-program jump budget 1..N) for multi-rule / multi-CIDR / multi-port configurations, trampolines with a small stride; D: option matrix (flow logs, policy debug, cb[] jumps, IPv6); E: N passed tiers (N in {0,1,29..34,65} around MaxRuleIDs=32, passed by a matching pass rule or by end-of-tier pass) before each kind of deciding element x 7 section layouts x {flow logs, policy debug, split}. Non-trivial = distinct (configuration, options).")
 		c.Assume("rule matching reference = engine/refpol.RuleMatches; where it answers Unspecified (negated match on a packet the clause does not apply to, pass inside a profile) the executed outcome is accepted and counted")
 		c.Assume("the state blob is laid out with the offsets of the clang layout probe (C13 checks that they equal the builder's constants); IP set map content comes from the real ipsets encoders; tail calls into the static jump map are terminal (allow/deny sentinels)")
 		k.levelA()
@@ -710,6 +711,7 @@ func TestVerif_C11(t *testing.T) {
 		k.levelB2()
 		k.levelC()
 		k.levelD()
+		k.levelE()
 		c.Extra("max_sub_programs", k.maxProgs)
 	})
 }
@@ -1005,6 +1007,85 @@ func (k *c11Check) levelC() {
 			emit(&c11Case{Level: "C", Class: "real-threshold", Desc: "1400-rule policy, default jump budget", Rules: r, Opts: c11Opts{Ver: 4, UseJumps: true}}, k.pktsFull[4], false)
 		})
 	}
+}
+
+// levelE: fixed-size limits of the state blob at their boundary. state->rule_ids holds MaxRuleIDs (32)
+// entries; with flow logs / policy debug every matching non-log rule (and every end-of-tier rule)
+// records a hit. N tiers that are passed (by a matching pass rule, or by an end-of-tier pass) precede
+// the deciding element, N around the boundary; the verdict must not depend on the array being full
+// and nothing behind the array may be written (the flags word follows it and is checked after every run).
+func (k *c11Check) levelE() {
+	k.parallel("E:rule-id-array-boundary", func(emit func(*c11Case, []*c11Pkt, bool)) {
+		ver := 4
+		d := c11Domain(ver)
+		sh := d.shapes(false)
+		all, tcp, udp := sh[0], sh[1], sh[2]
+		ns := []int{0, 1, state.MaxRuleIDs - 3, state.MaxRuleIDs - 2, state.MaxRuleIDs - 1, state.MaxRuleIDs, state.MaxRuleIDs + 1, state.MaxRuleIDs + 2, 2*state.MaxRuleIDs + 1}
+		passTiers := func(n int, byRule bool) []Tier {
+			var ts []Tier
+			for i := 0; i < n; i++ {
+				t := Tier{Name: fmt.Sprintf("pass%d", i), EndAction: TierEndPass, EndRuleID: uint64(0xE000 + i)}
+				if byRule {
+					t.EndAction = TierEndDeny
+					t.Policies = []Policy{{Name: "p", Rules: []Rule{withAction(all, "next-tier", uint64(0xA000+i))}}}
+				} else {
+					t.Policies = []Policy{{Name: "p", Rules: []Rule{withAction(udp, "deny", uint64(0xA000+i))}}} // no match for tcp: end-of-tier pass is recorded
+				}
+				ts = append(ts, t)
+			}
+			return ts
+		}
+		deciders := map[string]func() ([]Tier, []Profile){
+			"rule-allow":       func() ([]Tier, []Profile) { return tier1([]Rule{withAction(tcp, "allow", 0xD1)}, TierEndDeny), nil },
+			"rule-deny":        func() ([]Tier, []Profile) { return tier1([]Rule{withAction(tcp, "deny", 0xD2)}, TierEndPass), nil },
+			"end-of-tier-deny": func() ([]Tier, []Profile) { return tier1([]Rule{withAction(udp, "allow", 0xD3)}, TierEndDeny), nil },
+			"profile-allow": func() ([]Tier, []Profile) {
+				return nil, []Profile{{Name: "pr", Rules: []Rule{withAction(tcp, "allow", 0xD4)}}}
+			},
+			"no-profile-match": func() ([]Tier, []Profile) {
+				return nil, []Profile{{Name: "pr", Rules: []Rule{withAction(udp, "allow", 0xD5)}}}
+			},
+		}
+		var dnames []string
+		for n := range deciders {
+			dnames = append(dnames, n)
+		}
+		sort.Strings(dnames)
+		for _, n := range ns {
+			for _, byRule := range []bool{true, false} {
+				for _, dn := range dnames {
+					dt, dp := deciders[dn]()
+					tiers := append(passTiers(n, byRule), dt...)
+					cfgs := map[string]Rules{
+						"workload":    {SuppressNormalHostPolicy: true, Tiers: tiers, Profiles: dp},
+						"host-normal": {ForHostInterface: true, HostNormalTiers: tiers, HostProfiles: dp},
+						// pre-DNAT in front of workload policy: a pre-DNAT deny must not fall through
+						"predna+workload": {SuppressNormalHostPolicy: true, HostPreDnatTiers: tiers, Tiers: tier1([]Rule{withAction(all, "allow", 0xD9)}, TierEndDeny)},
+						"predna-host":     {ForHostInterface: true, HostPreDnatTiers: tiers, HostForwardTiers: tier1(nil, TierEndDeny), HostNormalTiers: tier1(nil, TierEndDeny)},
+						"forward":         {ForHostInterface: true, HostForwardTiers: tiers},
+						"xdp":             {ForHostInterface: true, ForXDP: true, HostNormalTiers: tiers},
+						// hits accumulate across sections: pre-DNAT passes, then forward / normal, then workload tiers
+						"all-sections": {SuppressNormalHostPolicy: true, HostPreDnatTiers: passTiers(n/2, byRule), HostForwardTiers: passTiers(n-n/2, byRule), Tiers: append(passTiers(1, byRule), dt...), Profiles: dp},
+					}
+					var cn []string
+					for c := range cfgs {
+						cn = append(cn, c)
+					}
+					sort.Strings(cn)
+					for _, c := range cn {
+						r := cfgs[c]
+						if dp != nil && (c == "predna+workload" || c == "predna-host" || c == "forward" || c == "xdp") {
+							continue // no profiles in these sections
+						}
+						for _, o := range []c11Opts{{UseJumps: true}, {UseJumps: true, FlowLogs: true}, {UseJumps: true, Debug: true}, {UseJumps: true, FlowLogs: true, MaxJumps: 25}} {
+							o.Ver, o.XDP = ver, r.ForXDP
+							emit(&c11Case{Level: "E", Class: fmt.Sprintf("rule-ids-boundary:%s:%s", c, dn), Desc: fmt.Sprintf("%d passed tiers (by rule=%v) then %s in %s", n, byRule, dn, c), Rules: r, Opts: o}, k.pkts[ver], false)
+						}
+					}
+				}
+			}
+		}
+	})
 }
 
 // levelD: option matrix on a fixed set of configurations.
